@@ -14,7 +14,7 @@ import json
 import core
 
 LEVEL = "proof"
-EXTRA_TARGETS = ["model/IterTie.vo", "model/IterEnvTie.vo", "model/IterArgsTie.vo"]
+EXTRA_TARGETS = ["model/IterTie.vo", "model/IterEnvTie.vo", "model/IterArgsTie.vo", "model/IterPadClsTie.vo"]
 
 SIZES = [[1, 1], [2, 1], [3, 2], [2, 3]]
 DURS = [1, 7, 40, None]  # None = DYNAMIC
@@ -1165,6 +1165,272 @@ def exhaustive_args_small(maxlen):
     return out
 
 
+# ================================================================= padding objects by CLASS; min size vs render size
+#
+# model/IterPadCls.v: the padding handed to the constructors / set_padding is an OBJECT WITH A CLASS (AlignedPadding
+# itself / a client subclass of it / ExactPadding / a subclass of it / a client subclass of Padding); the resolution
+# of relative dimensions depends on `relative` only.  And: the padded size ACROSS a set_render_size — histories in
+# which the render size moves from not-below to below the aligned padding's minimum (and back), in each dimension
+# separately, a frame right after each move.  Driver: impl_c08.py (class tag = 6th element of a padding); judged by
+# model/IterPadClsTie.v [checkP].
+
+SIZES_P = [[1, 1], [2, 1], [1, 2], [3, 2], [2, 3], [3, 3], [4, 3], [2, 4]]
+PCLS_A = ["base", "sub", "sub"]
+PCLS_E = ["base", "sub", "client"]
+PK_T = {("A", "base"): "KAligned", ("A", "sub"): "KAlignedSub", ("E", "base"): "KExact", ("E", "sub"): "KExactSub",
+        ("E", "client"): "KClient"}
+
+
+def pobj_cls(p):
+    return p[5] if len(p) > 5 else "base"
+
+
+def gen_pobj(rng, around=None):
+    """a padding object: fields + class.  Aligned absolute minimum sizes are aimed at the render sizes in use
+    (each dimension independently one below / equal / one above a size of SIZES_P, or of `around`)."""
+    kind = rng.choice(["A", "A", "A", "R", "R", "E"])
+    if kind == "E":
+        return list(rng.choice(PADS_EXACT)) + [rng.choice(PCLS_E)]
+    if kind == "R":
+        return list(rng.choice(PADS_REL_ENV)) + [rng.choice(PCLS_A)]
+    sz = around if around is not None and rng.random() < 0.6 else rng.choice(SIZES_P)
+    w = max(1, sz[0] + rng.choice([-1, 0, 0, 1]))
+    h = max(1, sz[1] + rng.choice([-1, 0, 0, 1]))
+    return ["A", w, h, rng.randint(0, 2), rng.randint(0, 2), rng.choice(PCLS_A)]
+
+
+def pad_case(**kw):
+    c = base_case(padcls=True, n=5, loops=2)
+    c.update(kw)
+    return c
+
+
+def gen_padcls_case(rng, length=20):
+    """Either a history of gen_case whose paddings are objects with a class (more set_padding / set_render_size,
+    a frame after most of them), or a 'crossing' run: one aligned padding, the render size moved around its minimum
+    size, a frame after every move."""
+    if rng.random() < 0.5:
+        c = gen_case(rng, length, fault_p=0.03, setting_bias=True)
+        c["padcls"] = True
+        c["size"] = list(rng.choice(SIZES_P))
+        c["pad"] = gen_pobj(rng, c["size"])
+        ops, cur = [], c["size"]
+        for o in c["ops"]:
+            if o[0] == "pad":
+                o = ["pad", gen_pobj(rng, cur)]
+            elif o[0] == "size":
+                o = ["size", list(rng.choice(SIZES_P))]
+                cur = o[1]
+            elif rng.random() < 0.1:
+                ops.append(["pad", gen_pobj(rng, cur)] if rng.random() < 0.5 else ["size", list(rng.choice(SIZES_P))])
+                if ops[-1][0] == "size":
+                    cur = ops[-1][1]
+            ops.append(o)
+        c["ops"] = ops
+        return c
+    size = list(rng.choice(SIZES_P))
+    pad = gen_pobj(rng, size)
+    while pad[0] != "A" or pad[1] <= 0 or pad[2] <= 0:
+        pad = gen_pobj(rng, size)
+    n = rng.choice([3, 5, None])
+    c = pad_case(n=n, total=8, loops=rng.choice([-1, 3]), cache=rng.choice([False, True]), size=size, pad=pad,
+                 owns=rng.random() < 0.7, dur=rng.choice(DURS), stamp=rng.random() < 0.3)
+    ops = [["next"]] if rng.random() < 0.7 else []
+    for _ in range(rng.randint(2, 7)):
+        x = rng.random()
+        if x < 0.75:
+            # a size chosen by its relation to the minimum: each dimension below / equal / above
+            w = max(1, pad[1] + rng.choice([-2, -1, 0, 0, 1]))
+            h = max(1, pad[2] + rng.choice([-2, -1, 0, 0, 1]))
+            ops.append(["size", [w, h]])
+        elif x < 0.9:
+            pad = gen_pobj(rng, size)
+            while pad[0] != "A" or pad[1] <= 0 or pad[2] <= 0:
+                pad = gen_pobj(rng, size)
+            ops.append(["pad", pad])
+        else:
+            ops.append(gen_seek(rng, n, 0))
+        if rng.random() < 0.85:
+            ops.append(["next"])
+    c["ops"] = ops
+    return c
+
+
+P_OBJECTS = [["A", 0, -2, 1, 1, "base"], ["A", 0, -2, 1, 1, "sub"], ["A", -70, 0, 0, 2, "sub"], ["A", 4, 3, 1, 1, "base"],
+             ["A", 4, 3, 2, 0, "sub"], ["E", 1, 0, 2, 1, "base"], ["E", 1, 0, 2, 1, "sub"], ["E", 0, 1, 1, 0, "client"],
+             ["E", 0, 0, 0, 0, "client"]]
+PADCLS_CORPUS = (
+    # every class x relative/absolute through every entry point: RenderIterator(...) (-> Renderable._init_render_),
+    # _from_render_data_, set_padding; then the render size changes
+    [pad_case(size=[2, 2], pad=list(o), owns=owns, ops=[N, ["size", [1, 1]], N]) for owns in (True, False)
+     for o in P_OBJECTS]
+    + [pad_case(size=[2, 2], owns=owns, ops=[N, ["pad", list(o)], N, ["size", [3, 1]], N, ["close"], ["pad", list(o)]])
+       for owns in (True, False) for o in P_OBJECTS]
+    # the render size moves from not-below to below the minimum and back: both dimensions, width only, height only
+    + [pad_case(size=[4, 3], pad=["A", 3, 3, 1, 1, cls], ops=[N, ["size", [1, 1]], N, N, ["size", [2, 5]], N,
+                                                             ["size", [3, 3]], N, ["size", [1, 2]], N])
+       for cls in ("base", "sub")]
+    + [pad_case(size=[3, 2], pad=["A", 3, 1, 0, 0, "base"], ops=[N, ["size", [2, 3]], N, ["size", [3, 1]], N]),
+       pad_case(size=[2, 3], pad=["A", 1, 3, 2, 2, "sub"], ops=[N, ["size", [3, 2]], N, ["size", [1, 3]], N]),
+       pad_case(size=[1, 1], cache=True, loops=3, n=3,
+                ops=[N, ["size", [3, 3]], ["pad", ["A", 2, 2, 1, 1, "sub"]], N, ["size", [1, 2]], N, ["size", [2, 1]], N,
+                     N, N, N]),
+       pad_case(n=None, total=6, size=[3, 3], pad=["A", -78, -28, 1, 1, "sub"],
+                ops=[N, ["size", [1, 3]], N, ["size", [3, 1]], N, ["size", [2, 2]], N])]
+)
+
+
+def pobj_t(p):
+    return f"{{| pk := {PK_T[(p[0], pobj_cls(p))]}; pp := {pad_t(p)} |}}"
+
+
+def pop_t(o):
+    if o[0] == "pad":
+        return f"PSetPadding {pobj_t(o[1])}"
+    return f"PPlain ({op_t(o)})"
+
+
+def pcase_t(c, r):
+    t = case_t(dict(c, pad=["E", 0, 0, 0, 0], ops=[]), r)
+    return f"{{| pc_t := {t}; pc_ctor := {pobj_t(c['pad'])}; pc_ops := {core.coq_list(c['ops'], pop_t)} |}}"
+
+
+PADCLS_HEADER = ("From Coq Require Import List ZArith.\nImport ListNotations.\n"
+                 "From TI Require Import model.Iter model.IterSpec model.IterTie model.IterPadCls model.IterPadClsTie.\n"
+                 "Open Scope nat_scope.\n")
+
+
+def evaluate_padcls(cases, tag="c08p"):
+    """Returns (codes per case, errors, impl results)."""
+    impl = core.run_impl_parallel("impl_c08.py", cases, timeout=IMPL_TIMEOUT[0])
+    terms = [pcase_t(c, r) for c, r in zip(cases, impl)]
+    codes = [0] * len(cases)
+    res, errors = core.coq_shards(tag, PADCLS_HEADER, terms, "pcase", "badP cases", shard=150)
+    for idx, code in res:
+        codes[idx] = code
+    return codes, errors, impl
+
+
+def fails_padcls(cands, tag="c08ps"):
+    codes, errors, _ = evaluate_padcls(cands, tag=tag)
+    return [code >= 2 and not errors for code in codes]
+
+
+def is_padcls(c):
+    return bool(c.get("padcls"))
+
+
+def describe_padcls(c):
+    return ("paddings are objects with a class (6th element: base = AlignedPadding / ExactPadding itself, sub = an "
+            "instance of a client subclass of it, client = a client subclass of Padding; owns=False: given to "
+            "_from_render_data_): " + describe(c))
+
+
+def signature_padcls(c):
+    return core.sig({k: c.get(k) for k in ("padcls", "n", "loops", "cache", "size", "dur", "args", "pad", "owns",
+                                           "frame", "faults", "ffaults", "ops")})
+
+
+def report_padcls_failures(cases, codes, max_shrunk=2, max_reported=5):
+    failing = [k for k, code in enumerate(codes) if code >= 2]
+    if not failing:
+        return []
+    failing.sort(key=lambda k: len(cases[k]["ops"]))
+    chosen = failing[:max_reported]
+    minimal = [shrink(cases[k], fails_padcls, "c08ps") if j < max_shrunk else cases[k] for j, k in enumerate(chosen)]
+    uniq = {}
+    for m in minimal:
+        uniq.setdefault(signature_padcls(m), m)
+    keys = list(uniq)
+    c2, _, impl2 = evaluate_padcls([uniq[k] for k in keys], "c08pr")
+    out = []
+    for k, code, obs in zip(keys, c2, impl2):
+        m = uniq[k]
+        out.append({
+            "signature": k,
+            "what": "iterator history with padding objects of several classes / render sizes around the padding's "
+                    "minimum size contradicts the documented model (relative dimensions resolved on reception whatever "
+                    "the class; after set_render_size frames are padded by the current padding at the new size): "
+                    + describe_padcls(m) + " -> constructor " + json.dumps(obs.get("ctor")) + ", observed "
+                    + json.dumps([x[0] for x in obs.get("ops", [])])[:600]
+                    + f" [{len(failing)} failing case(s) of this family in this run]",
+            "replay": {"case": m, "observed": obs, "code": code},
+        })
+    return out
+
+
+def _abs_min(p):
+    """minimum size of an aligned padding once resolved against the 80x30 terminal of the plain histories"""
+    w, h = p[1], p[2]
+    return (max(80 + w, 1) if w <= 0 else w, max(30 + h, 1) if h <= 0 else h)
+
+
+def padcls_histogram(cases, impl):
+    h = {"padcls_cases": len(cases), "object_by_entry_point_class_kind": {}, "set_padding_on_closed": 0,
+         "set_render_size_by_min_relation(before->after)": {}, "frames_right_after_set_render_size": 0,
+         "frames_right_after_set_padding": 0, "ctor_rejected": 0}
+
+    def inc(k, v):
+        h[k][v] = h[k].get(v, 0) + 1
+
+    def kind(p):
+        return pad_kind(p).replace("aligned-", "")
+
+    def rel(p, sz):
+        if p[0] != "A":
+            return "exact"
+        mw, mh = _abs_min(p)
+        return {(False, False): "not-below", (True, False): "below-w", (False, True): "below-h",
+                (True, True): "below-both"}[(sz[0] < mw, sz[1] < mh)]
+
+    for c, r in zip(cases, impl):
+        inc("object_by_entry_point_class_kind",
+            f"{'RenderIterator()' if c.get('owns', True) else '_from_render_data_'}/{c['pad'][0]}-{pobj_cls(c['pad'])}/"
+            f"{kind(c['pad'])}")
+        if r["ctor"][0] != "ok":
+            h["ctor_rejected"] += 1
+            continue
+        pad, size, closed, prev = c["pad"], c["size"], False, None
+        for o, x in zip(c["ops"], r["ops"]):
+            out = x[0]
+            if o[0] == "pad":
+                inc("object_by_entry_point_class_kind", f"set_padding/{o[1][0]}-{pobj_cls(o[1])}/{kind(o[1])}")
+                if out[0] == "K":
+                    pad = o[1]
+                else:
+                    h["set_padding_on_closed"] += 1
+            elif o[0] == "size" and out[0] == "K":
+                inc("set_render_size_by_min_relation(before->after)", f"{rel(pad, size)}->{rel(pad, o[1])}")
+                size = o[1]
+            elif o[0] == "next" and out[0] == "F":
+                h["frames_right_after_set_render_size"] += prev == "size"
+                h["frames_right_after_set_padding"] += prev == "pad"
+            prev = o[0]
+    return h
+
+
+def nontrivial_padcls(c, r):
+    """>= 2 frames yielded and a set_padding or set_render_size between frames"""
+    if r["ctor"][0] != "ok":
+        return False
+    frames = sum(1 for x in r["ops"] if x[0][0] == "F")
+    return frames >= 2 and any(o[0] in ("pad", "size") for o in c["ops"])
+
+
+def exhaustive_padcls_small(maxlen):
+    """every history of length <= maxlen over next / set_render_size around the minimum (2, 2) / set_padding with an
+    aligned (absolute, relative) object of a subclass and a client padding, containing a next and a setter"""
+    import itertools
+    alphabet = [N, ["size", [1, 1]], ["size", [3, 3]], ["size", [1, 3]], ["size", [3, 1]],
+                ["pad", ["A", 2, 2, 0, 2, "sub"]], ["pad", ["A", 0, -2, 1, 1, "sub"]], ["pad", ["E", 1, 0, 0, 1, "client"]]]
+    out = []
+    for ln in range(2, maxlen + 1):
+        for ops in itertools.product(alphabet, repeat=ln):
+            if any(o[0] != "next" for o in ops) and any(o[0] == "next" for o in ops):
+                out.append(pad_case(n=2, cache=True, stamp=True, size=[2, 2], pad=["A", 2, 2, 1, 1, "base"],
+                                    ops=[copy.deepcopy(list(o)) for o in ops]))
+    return out
+
 
 def run(ctx):
     rng = ctx.rng
@@ -1172,7 +1438,8 @@ def run(ctx):
         cases = [ctx.replay["replay"]["case"]]
         env_cases = [c for c in cases if is_env(c)]
         arg_cases = [c for c in cases if is_args(c) and not is_env(c)]
-        cases = [c for c in cases if not is_env(c) and not is_args(c)]
+        pad_cases = [c for c in cases if is_padcls(c) and not is_env(c) and not is_args(c)]
+        cases = [c for c in cases if not is_env(c) and not is_args(c) and not is_padcls(c)]
     else:
         ngen = 800 if ctx.quick else 12000
         cases = [copy.deepcopy(c) for c in CORPUS]
@@ -1190,44 +1457,58 @@ def run(ctx):
         arg_cases += [gen_args_case(rng, 20 if i % 4 else 35) for i in range(160 if ctx.quick else 2500)]
         if not ctx.quick:
             arg_cases += exhaustive_args_small(4)
+        pad_cases = [copy.deepcopy(c) for c in PADCLS_CORPUS]
+        pad_cases += [gen_padcls_case(rng, 20 if i % 4 else 35) for i in range(170 if ctx.quick else 2500)]
+        if not ctx.quick:
+            pad_cases += exhaustive_padcls_small(4)
     if ctx.quick:
         from concurrent.futures import ThreadPoolExecutor
-        with ThreadPoolExecutor(max_workers=3) as ex:  # the families are independent: overlap them
+        with ThreadPoolExecutor(max_workers=4) as ex:  # the families are independent: overlap them
             f1 = ex.submit(lambda: evaluate(cases) if cases else ([], [], []))
             f2 = ex.submit(lambda: evaluate_env(env_cases) if env_cases else ([], [], []))
             f3 = ex.submit(lambda: evaluate_args(arg_cases) if arg_cases else ([], [], []))
+            f4 = ex.submit(lambda: evaluate_padcls(pad_cases) if pad_cases else ([], [], []))
             codes, errors, impl = f1.result()
             ecodes, eerrors, eimpl = f2.result()
             acodes, aerrors, aimpl = f3.result()
+            pcodes, perrors, pimpl = f4.result()
     else:
         IMPL_TIMEOUT[0] = 3000
         codes, errors, impl = evaluate(cases) if cases else ([], [], [])
         ecodes, eerrors, eimpl = evaluate_env(env_cases) if env_cases else ([], [], [])
         acodes, aerrors, aimpl = evaluate_args(arg_cases) if arg_cases else ([], [], [])
-    errors = errors + eerrors + aerrors
+        pcodes, perrors, pimpl = evaluate_padcls(pad_cases) if pad_cases else ([], [], [])
+    errors = errors + eerrors + aerrors + perrors
     failures = report_failures(cases, codes, fails_spec8, "c08s",
                                "iterator history contradicts the documented model (IterSpec)", evaluate)
     failures += report_env_failures(env_cases, ecodes, eimpl)
     failures += report_args_failures(arg_cases, acodes)
+    failures += report_padcls_failures(pad_cases, pcodes)
     mismatches = [{"case": cases[i], "code": code, "observed": impl[i]} for i, code in enumerate(codes) if code == 1]
     mismatches += [{"case": env_cases[i], "code": code, "observed": eimpl[i]}
                    for i, code in enumerate(ecodes) if code == 1]
     mismatches += [{"case": arg_cases[i], "code": code, "observed": aimpl[i]}
                    for i, code in enumerate(acodes) if code == 1]
+    mismatches += [{"case": pad_cases[i], "code": code, "observed": pimpl[i]}
+                   for i, code in enumerate(pcodes) if code == 1]
     distinct = {signature(c) for c, r in zip(cases, impl) if nontrivial(c, r)}
     distinct |= {signature_env(c) for c, r in zip(env_cases, eimpl) if nontrivial_env(c, r)}
     distinct |= {signature_args(c) for c, r in zip(arg_cases, aimpl) if nontrivial_args(c, r)}
+    distinct |= {signature_padcls(c) for c, r in zip(pad_cases, pimpl) if nontrivial_padcls(c, r)}
     hist = histogram(cases, impl)
     hist["environment"] = env_histogram(env_cases, eimpl)
     hist["render_args_by_class_relation"] = args_histogram(arg_cases, aimpl)
+    hist["padding_objects_by_class_and_min_size_relation"] = padcls_histogram(pad_cases, pimpl)
     return {
         "corr_name": "Iter.trace (model) == IterSpec.spec_trace (documented machine) == real RenderIterator history "
                      "on the instrumented renderable VR (frames, loop countdown, errors, render-call log, tell()); "
                      "and IterEnv.trace_env == IterEnv.spec_trace_env == real history with terminal resizes, client "
                      "writes to iterator.loop, and a second iterator over re-used render data; and the same with render "
                      "arguments associated with the renderable's class / an ancestor's / a subclass's / an unrelated "
-                     "class (IterArgs.install vs IterArgs.doc_install) on a real class hierarchy",
-        "evaluations": len(cases) + len(env_cases) + len(arg_cases),
+                     "class (IterArgs.install vs IterArgs.doc_install) on a real class hierarchy; and the same with "
+                     "padding OBJECTS of several classes (IterPadCls.install_pad vs doc_install_pad) and render sizes "
+                     "moved around the aligned padding's minimum size",
+        "evaluations": len(cases) + len(env_cases) + len(arg_cases) + len(pad_cases),
         "distinct_nontrivial": len(distinct),
         "rule": "corpus of boundary histories + random histories (1-40 ops, Next-weighted, seeks aimed at "
                 "{0, n-1, n, -1, current} and at the end-of-pass boundary, setters incl. invalid values, close/drop) "
@@ -1251,11 +1532,22 @@ def run(ctx):
                 "/ the sibling VRSib / the unrelated Other, with field values 0-3 that the frames show (foo + 100*mid, "
                 "+10000 if _render_ is handed arguments not associated with the renderable's class); thorough adds "
                 "every history of length <= 4 over next / one set_render_args per relation / seek / close containing "
-                "both.  Non-trivial there: >= 2 frames and a set_render_args by class relation.",
+                "both.  Non-trivial there: >= 2 frames and a set_render_args by class relation.  "
+                "PADDING-OBJECT family (IterPadCls): every padding given to RenderIterator(...) (-> "
+                "Renderable._init_render_), _from_render_data_ and set_padding is an object of class AlignedPadding / "
+                "a client subclass of AlignedPadding / ExactPadding / a subclass of it / a client subclass of Padding, "
+                "aligned ones relative or absolute; absolute minimum sizes are aimed at the render sizes (each "
+                "dimension one below / equal / one above); half of the histories are 'crossing' runs: one aligned "
+                "padding, set_render_size to sizes chosen by their relation to the minimum (each dimension below / "
+                "equal / above), a frame after most moves; corpus = every class x entry point x relative/absolute + "
+                "shrink-below-minimum-and-back in both / width only / height only; thorough adds every history of "
+                "length <= 4 over next / 4 sizes around the minimum / 3 padding objects.  Non-trivial there: >= 2 "
+                "frames and a set_padding or set_render_size.",
         "samples": [describe(c) for c in cases[:2] + cases[len(CORPUS):len(CORPUS) + 3]]
                    + [describe_env(c) for c in env_cases[:1] + env_cases[len(ENV_CORPUS):len(ENV_CORPUS) + 2]
                       + env_cases[-1:]]
-                   + [describe_args(c) for c in arg_cases[:1] + arg_cases[len(ARGS_CORPUS):len(ARGS_CORPUS) + 1]],
+                   + [describe_args(c) for c in arg_cases[:1] + arg_cases[len(ARGS_CORPUS):len(ARGS_CORPUS) + 1]]
+                   + [describe_padcls(c) for c in pad_cases[:1] + pad_cases[len(PADCLS_CORPUS):len(PADCLS_CORPUS) + 1]],
         "histogram": hist,
         "mismatches": mismatches,
         "failures": failures,
@@ -1273,6 +1565,9 @@ def run(ctx):
             "render arguments are abstracted to (relation of their class to the renderable's class, inherited field, "
             "own field); the conversion RenderArgs(render_cls, args) of compatible arguments (C16) keeps the "
             "namespaces the arguments have and takes defaults for the rest",
+            "a padding object is abstracted to (its class among AlignedPadding / subclass of it / ExactPadding / subclass "
+            "of it / client subclass of Padding, its fields); client subclasses do not override resolve / "
+            "get_padded_size / pad (misbehaving client methods are C10's)",
         ],
         "trusted": ["impl driver decodes padded outputs of the instrumented renderable by counting fill characters; "
                     "classifies exceptions by class; reads iterator.loop and renderable.tell() after every operation; "
